@@ -153,7 +153,9 @@ theorem goalE_all (e : E) : GoalE zf env e :=
 theorem run_of_sem1 {c : List Step} {x : M V} (h : Sem1 env c x) : run c env = x := by
   unfold run
   rw [h []]
-  cases x <;> rfl
+  cases x with
+  | error e => rfl
+  | ok a => simp [bind, Except.bind, emitValue_id]
 
 /-- The compiled postfix of any expression of the grammar evaluates to its standard value. -/
 theorem string_core (e : E) :
